@@ -267,7 +267,9 @@ Theorem wf_refines (v : view) : wf v -> refines v.
 Proof.
   induction v as [l|inner IH from to step|inner IH|data IH n|a IHa b IHb|s e|f wi inner IH];
     cbn [wf]; intros H.
-  - split; [reflexivity|]. intros i. reflexivity.
+  - split; [reflexivity|]. intros i. cbn [get_impl denote].
+    destruct (N.leb_spec (N.of_nat (length l)) i) as [Hi|Hi]; [|reflexivity].
+    rewrite nth_error_beyond by lia. reflexivity.
   - destruct H as (Hi & Hft & Hto & Hst). apply refines_slice; auto.
   - apply refines_rev; auto.
   - destruct H as (Hd & Hfit). apply refines_rep; auto.
